@@ -977,7 +977,7 @@ func (p *Parser) parseTableExpr(toplevel bool) ast.TableExpr {
 				p.nextToken()
 				method = ast.HashJoinMethod
 				needJoin = true
-			case p.Token.IsKeywordLike("LOOKUP"):
+			case p.Token.Kind == "LOOKUP":
 				p.nextToken()
 				method = ast.LookupJoinMethod
 				needJoin = true
